@@ -252,7 +252,7 @@ pub fn c09(cx: &Ctx) -> Report {
     });
     if tier == Tier::Thorough {
         // all 2^32 four-byte inputs on designated f32 subjects deriving Arbitrary with validation
-        let all: Vec<usize> = (0..cx.subs.len()).filter(|i| cx.only.map(|o| o == *i).unwrap_or(true)).filter(|i| { let d = &cx.subs[*i].decl; d.inner == Inner::F32 && d.derives(Tr::Arbitrary) && d.has_validation() }).collect();
+        let all: Vec<usize> = (0..cx.subs.len()).filter(|i| cx.only.map(|o| o == *i).unwrap_or(true) && !cx.subjects[*i].excluded()).filter(|i| { let d = &cx.subs[*i].decl; d.inner == Inner::F32 && d.derives(Tr::Arbitrary) && d.has_validation() }).collect();
         let step = (all.len() / 16).max(1);
         for &i in all.iter().step_by(step) {
             let d = &cx.subs[i].decl;
@@ -710,7 +710,7 @@ pub fn float_word_inputs_pub(d: &Decl, tier: Tier) -> Vec<Vec<u8>> {
 
 pub fn f32_full_sweep_filtered(cx: &Ctx, prop: &str, max_subjects: usize, filter: impl Fn(&Decl) -> bool, f: impl Fn(usize, &Decl, &dyn Subject, u32, &mut Report) + Sync) -> Report {
     let mut rep = Report::new(prop, cx.tier.name());
-    let all: Vec<usize> = (0..cx.subs.len()).filter(|i| cx.only.map(|o| o == *i).unwrap_or(true) && cx.subs[*i].decl.inner == Inner::F32 && filter(&cx.subs[*i].decl)).collect();
+    let all: Vec<usize> = (0..cx.subs.len()).filter(|i| cx.only.map(|o| o == *i).unwrap_or(true) && !cx.subjects[*i].excluded() && cx.subs[*i].decl.inner == Inner::F32 && filter(&cx.subs[*i].decl)).collect();
     if all.is_empty() {
         return rep;
     }
